@@ -333,6 +333,8 @@ package webserver
 //@   props C19 C12
 //@   requires nonnil: w != nil && r != nil && r.URL != nil
 //@   modifies *
+//@   -- (the test for a path separator other than '/' is dead code where filepath.Separator is '/')
+//@   unreachable ret11
 //@   -- C19: recordings are opened only through the os.Root of the recordings directory
 //@   assert at call OpenRoot recordings-dir: arg_name == diskwriter.Directory
 //@   assert at call (*os.Root).Open through-root: arg_r == first(callresult("OpenRoot", 1))
